@@ -136,7 +136,9 @@ class P(core.Prop):
 
     def generate(self, rng, tier, n):
         out = []
-        keys = ['version', 'ns/all', 'config/names', 'SocksPort', 'a/b', 'k', 'events/names', 'Log']
+        keys = ['version', 'ns/all', 'config/names', 'SocksPort', 'a/b', 'k', 'events/names', 'Log',
+                # keys control-spec allows that hold other characters than letters, '/', '.', '-'
+                'ip-to-country/2001:db8::1', 'dir/status/fp/A+B', 'desc/id/$AAAA', 'x~y', 'addr,map', 'md/name/*']
         for _ in range(n):
             r = rng.random()
             cut = rng.randrange(1 << 30)
